@@ -149,6 +149,29 @@ def call_builtin(ex: Any, fv: VFunc, args: List[V], kwargs: Dict[str, V], st: St
         return
     if f is getattr:
         obj, nm = args[0], ex.concrete(args[1])
+        if len(args) == 3 and isinstance(obj, VRef):
+            # getattr(obj, name, default): dispatch on the dynamic class; classes without the attribute give the default
+            from .loader import find_attr_definer, init_assigned_attrs
+            if find_attr_definer(obj.cls, nm) is not None or nm in init_assigned_attrs(obj.cls):
+                yield from ex.getattr_v(obj, nm, st)
+                return
+            definers = []
+            for d in ex.ct.subclasses(obj.cls):
+                if d is obj.cls:
+                    continue
+                if nm in vars(d) or nm in {a for a, k in init_assigned_attrs(d).items() if k is d}:
+                    if not any(ex.ct.is_sub(d, e) and e is not d for e in definers):
+                        definers = [e for e in definers if not ex.ct.is_sub(e, d)] + [d]
+            guards = []
+            for d in definers:
+                g = ex.isinstance_v(obj, [d]).term
+                guards.append(g)
+                if ex.feasible_with(st, g):
+                    yield from ex.getattr_v(VRef(obj.term, d, ex), nm, st.assume(g).decide(f"getattr.{nm}.{d.__name__}"))
+            none = z3.Not(z3.Or(guards)) if guards else z3.BoolVal(True)
+            if ex.feasible_with(st, none):
+                yield args[2], st.assume(none).decide(f"getattr.{nm}.default")
+            return
         try:
             outs = list(ex.getattr_v(obj, nm, st))
         except Unsupported:
